@@ -206,6 +206,45 @@ fn vi_group(rng: &mut Rng, insert_mode: &mut bool, helper: bool) -> Vec<String> 
     vec!["61".to_string()]
 }
 
+/// an incremental search in emacs mode: C-r (sometimes C-s first, which does nothing outside a search), then
+/// typed characters (mostly taken from the stored entries so that searches succeed, sometimes not), direction
+/// changes, Backspace, and an exit by every kind of key: abort, motions that move / do not move, commands
+/// that repaint nothing (yank from an empty ring, transpose at column 0, undo with nothing to undo), edits,
+/// history recall, clear screen, a quoted insert, Enter
+fn search_idiom(rng: &mut Rng, hist: &[String], out: &mut Vec<String>, helper: bool) {
+    if rng.chance(1, 8) {
+        out.push("13".to_string());
+    }
+    out.push("12".to_string());
+    let pool: Vec<char> = hist.iter().flat_map(|h| h.chars()).filter(|c| *c != '\n').collect();
+    for _ in 0..rng.below(6) {
+        match rng.below(10) {
+            0..=4 => {
+                let c = if !pool.is_empty() && rng.chance(4, 5) { *rng.pick(&pool) } else { text_char(rng, false) };
+                out.push(ed::tok_char(c));
+            }
+            5..=6 => out.push("12".to_string()),
+            7 => out.push("13".to_string()),
+            _ => out.push(rng.pick(&["7f", "08"]).to_string()),
+        }
+    }
+    let exits: &[&str] = &[
+        "07", "07", "19", "19", "14", "1f", "1b79", "1b5b43", "1b5b44", "01", "05", "02", "06", "1b62", "1b66",
+        "0b", "15", "17", "1b64", "1b5b337e", "10", "0e", "1b3c", "1b3e", "1b5b41", "1b5b42", "0c", "0d", "1b75",
+        "1b74", "04", "1b5b48", "1b5b46",
+    ];
+    let e = rng.pick(exits).to_string();
+    if e == "0d" && rng.chance(1, 2) {
+        // a quoted insert ends the search too
+        out.push("16".to_string());
+        out.push("0a".to_string());
+    } else if helper && rng.chance(1, 10) {
+        out.push("09".to_string());
+    } else {
+        out.push(e);
+    }
+}
+
 fn one(rng: &mut Rng, cols: u16, thorough: bool, sink: &mut dyn FnMut(String)) {
     let vi = rng.chance(1, 3);
     let mut flags = String::new();
@@ -248,12 +287,22 @@ fn one(rng: &mut Rng, cols: u16, thorough: bool, sink: &mut dyn FnMut(String)) {
     for _ in 0..k {
         if vi {
             toks.extend(vi_group(rng, &mut insert_mode, has_completer));
+        } else if !hist.is_empty() && rng.chance(1, 7) {
+            search_idiom(rng, &hist, &mut toks, has_completer);
         } else {
             emacs_key(rng, &mut toks, has_completer, brackets);
         }
     }
     // thorough tier: always end with Enter — under the load of a long parallel run the delivery of the last key
     // can race with the hang-up that ends a read without Enter (seen: 1 case in 60000, not reproducible alone)
+    // the read ends (Enter / hang-up) inside a search.  (Random keys are not generated inside a search: a numeric
+    // argument there repaints the own prompt for one callback, which the callbacks do not reveal when it is `M-1`.)
+    if !vi && !hist.is_empty() && rng.chance(1, 12) {
+        toks.push("12".to_string());
+        for _ in 0..rng.below(3) {
+            toks.push(ed::tok_char(text_char(rng, false)));
+        }
+    }
     if thorough || rng.chance(3, 4) {
         toks.push("0d".to_string());
     }
@@ -279,6 +328,24 @@ pub fn gen(ctx: &GenCtx, sink: &mut dyn FnMut(String)) {
         ] {
             sink(format!("render {} e {} - ~ - - - - {}", enc_text("> "), cols, keys));
         }
+    }
+    // incremental search (D42): left by a command that repaints nothing, then a cursor-only move; aborted;
+    // failed search, direction changes, Backspace; left by Enter
+    for (cols, keys) in [
+        (40u16, "12 61 19 1b5b43 62"),
+        (40, "12 62 14 02 78 0d"),
+        (12, "12 61 12 13 7a 7f 07 61 0d"),
+        (8, "12 63 1f 1b5b44 1b5b44 0d"),
+        (20, "61 12 62 0d"),
+        (6, "12 12 12 13 13 13 61 01 0d"),
+    ] {
+        sink(format!(
+            "render {} e {} - {} - - - - {}",
+            enc_text("> "),
+            cols,
+            enc_texts(&["abc".to_string(), "b c\nd".to_string()]),
+            keys
+        ));
     }
     let n = if ctx.thorough { 60_000 } else { 2_400 };
     for i in 0..n {
